@@ -56,6 +56,10 @@ Harness-only dimensions the Lean model is independent of (all optional keys; abs
   f["helper_sub"]          the Factory / Converter / and_() objects of the field are instances of user SUBCLASSES of attrs's public
                            helper types (SubFactory, SubConverter, SubAnd): wherever attrs dispatches on the type they must behave
                            like the base type (`factory=f` is then spelled `default=SubFactory(f)`)
+  f["conv_bind"]=="defaults" the field's traced converter callables (chain members too) are NOT closures: they bind field name /
+                           position through keyword defaults, so all of them share ONE code object (the `lambda v, n=n:` idiom)
+                           and differ only in __kwdefaults__ / __annotations__ -- across fields, classes and the whole process
+  f["hook_odd"]            the per-field on_setattr hook callables are callable OBJECTS that are falsy | len0 (HOOK_ODD_OK)
   call values              tokens of ODD_KINDS decode to objects with unusual __eq__/__ne__/__bool__/__hash__
 """
 from __future__ import annotations
@@ -405,8 +409,20 @@ def mk_converter(*a, **k):
     return _ctx_live().memo(('mk_converter', a, tuple(sorted(k.items())), _SUB[0]), lambda: _mk_converter(*a, **k))
 
 
-def _mk_converter(name, kind, ann, idx=0, odd=None):
-    """kind: plain | c00 | c10 | c01 | c11 (Converter(takes_self, takes_field)); idx: position in a converter chain"""
+def _bound_conv(name, idx, tag, ann):
+    """the traced converter written the `lambda v, n=n: ...` way: NOT a closure -- every such function of the process
+    shares ONE code object and differs only in __kwdefaults__ / __annotations__"""
+    def conv(value, *extra, _n=name, _i=idx, _t=tag):
+        _event("conv", _n, _i, [value, *extra], _t)
+        return _conv_result(_t, _n, _i, value, extra)
+    if ann:
+        conv.__annotations__ = {"value": "ConvIn"}      # what `value: ConvIn` gives under `from __future__ import annotations`
+    return conv
+
+
+def _mk_converter(name, kind, ann, idx=0, odd=None, bind=None):
+    """kind: plain | c00 | c10 | c01 | c11 (Converter(takes_self, takes_field)); idx: position in a converter chain;
+    bind == "defaults": the callable binds its identity through default arguments instead of a closure"""
     ts, tf = (False, False) if kind == "plain" else (kind[1] == "1", kind[2] == "1")
     tag = _TAG[0]
 
@@ -416,6 +432,8 @@ def _mk_converter(name, kind, ann, idx=0, odd=None):
 
     if _EQ[0]:
         fn = (EqConvAnn if ann else EqConv)(("conv", name, idx, kind, bool(ann)), tag)
+    elif bind == "defaults" and not (odd and odd in CB_ODD_OK["converter" if kind == "plain" else "Converter"] and not ann):
+        fn = _bound_conv(name, idx, tag, ann)
     elif ann:
         # a first-parameter annotation the generated __init__ should pick up
         def conv_a(value: ConvIn, *extra):
@@ -588,9 +606,20 @@ POST_FNS = {None: post, "swap": post_swap, "excinit": post_excinit, "both": post
 
 
 # ------------------------------------------------------------------------------------------ building
-def _on_setattr_arg(kind, name):
+HOOK_ODD_OK = ("falsy", "len0")     # a per-field hook attrs must call, never truth-test or measure
+
+
+def _mk_odd_hook(name, idx, odd):
+    h = mk_hook(name, idx)
+    if odd not in HOOK_ODD_OK or _EQ[0]:
+        return h
+    return _ctx_live().memo(("odd_hook", name, idx, odd), lambda: CB_ODD[odd](h))
+
+
+def _on_setattr_arg(kind, name, odd=None):
     return {
-        "unset": None, "noop": setters.NO_OP, "hook": mk_hook(name), "hooks2": [mk_hook(name, 0), mk_hook(name, 1)],
+        "unset": None, "noop": setters.NO_OP, "hook": _mk_odd_hook(name, 0, odd),
+        "hooks2": [_mk_odd_hook(name, 0, odd), _mk_odd_hook(name, 1, odd)],
         "validate": setters.validate, "convert": setters.convert,
     }[kind]
 
@@ -759,11 +788,11 @@ def _field_obj_(f, next_gen):
         kw["alias"] = f["alias"]
     if f.get("converter") == "pipe":
         # a converter chain: every member its own traced callback; only the first one's annotation can matter
-        members = [mk_converter(f["name"], k, f.get("conv_type", False) and i == 0, idx=i, odd=f.get("cb_odd"))
+        members = [mk_converter(f["name"], k, f.get("conv_type", False) and i == 0, idx=i, odd=f.get("cb_odd"), bind=f.get("conv_bind"))
                    for i, k in enumerate(f["pipe"])]
         kw["converter"] = members if f.get("pipe_style", "list") == "list" else attr.converters.pipe(*members)
     elif f.get("converter"):
-        kw["converter"] = mk_converter(f["name"], f["converter"], f.get("conv_type", False), odd=f.get("cb_odd"))
+        kw["converter"] = mk_converter(f["name"], f["converter"], f.get("conv_type", False), odd=f.get("cb_odd"), bind=f.get("conv_bind"))
     # the field's chain of `validators` callbacks: the first m through the `validator=` argument (a callable, a list,
     # an and_() object, or an and_() object shared with other fields), the rest with `@x.validator`
     nv = f.get("validators", 0)
@@ -778,7 +807,7 @@ def _field_obj_(f, next_gen):
     elif m >= 2:
         kw["validator"] = [_odd_cb(f, "validator_list", mk_validator(f["name"], i)) for i in range(m)]
     if f.get("on_setattr", "unset") != "unset":
-        kw["on_setattr"] = _on_setattr_arg(f["on_setattr"], f["name"])
+        kw["on_setattr"] = _on_setattr_arg(f["on_setattr"], f["name"], f.get("hook_odd"))
     if f.get("eq") is False:
         kw["eq"] = False
     if f.get("type") and not f.get("annotated"):
@@ -1336,6 +1365,12 @@ def gen_field(rng, name, frozen, rich=True, pipes=0.0, dflt_objs=False):
         f["converter"] = "pipe"
         f["pipe"] = [rng.choice(PIPE_KINDS) for _ in range(rng.choice([2, 3, 3]))]
         f["pipe_style"] = rng.choice(["list", "list", "pipe"])
+    if f["converter"] and rng.random() < 0.5:
+        # the converter callables bind their identity through default arguments (one shared code object), not a closure
+        f["conv_bind"] = "defaults"
+    if f["on_setattr"] in ("hook", "hooks2") and rng.random() < 0.4:
+        # the per-field hook callables are callable OBJECTS that are falsy / empty containers
+        f["hook_odd"] = rng.choice(HOOK_ODD_OK)
     if f["default"] == "value" and dflt_objs:
         # the declared default object: a plain string, or an instance of a user subclass of str / int / bytes
         # (opt-in: consumers with a canonicalisation of their own only know strings)
